@@ -352,6 +352,9 @@ pub struct Script {
     threads: Vec<Vec<Step>>,
     exit: u8,
     api_spawn: bool,
+    /// the supplied stdout / stderr writer fails after accepting this many bytes (None = never)
+    fail_out: Option<usize>,
+    fail_err: Option<usize>,
 }
 
 fn size_strategy() -> impl Strategy<Value = usize> {
@@ -381,7 +384,8 @@ fn step_strategy(streams: u8) -> impl Strategy<Value = Step> {
 fn script_strategy() -> impl Strategy<Value = Script> {
     let single = proptest::collection::vec(step_strategy(0), 0..9).prop_map(|s| vec![s]);
     let dual = (proptest::collection::vec(step_strategy(1), 0..6), proptest::collection::vec(step_strategy(2), 0..6)).prop_map(|(a, b)| vec![a, b]);
-    (prop_oneof![3 => single, 2 => dual], prop_oneof![3 => Just(0u8), 1 => any::<u8>()], any::<bool>()).prop_map(|(threads, exit, api_spawn)| Script { threads, exit, api_spawn })
+    let fail = || proptest::option::weighted(0.12, prop_oneof![Just(0usize), Just(10usize), Just(5000usize), Just(70000usize)]);
+    (prop_oneof![3 => single, 2 => dual], prop_oneof![3 => Just(0u8), 1 => any::<u8>()], any::<bool>(), fail(), fail()).prop_map(|(threads, exit, api_spawn, fail_out, fail_err)| Script { threads, exit, api_spawn, fail_out, fail_err })
 }
 
 fn script_text(s: &Script) -> String {
@@ -437,7 +441,7 @@ fn expected(s: &Script) -> (Vec<u8>, Vec<u8>) {
 }
 
 fn script_json(s: &Script) -> Value {
-    json!({"script": script_text(s), "api": if s.api_spawn { "spawn_and_write_streams" } else { "output_and_write_streams" }, "exit": s.exit})
+    json!({"script": script_text(s), "api": if s.api_spawn { "spawn_and_write_streams" } else { "output_and_write_streams" }, "exit": s.exit, "stdout_writer_fails_after": s.fail_out, "stderr_writer_fails_after": s.fail_err})
 }
 
 fn script_from_json(v: &Value) -> Script {
@@ -467,7 +471,34 @@ fn script_from_json(v: &Value) -> Script {
                 .collect()
         })
         .collect();
-    Script { threads, exit, api_spawn: v["api"] == "spawn_and_write_streams" }
+    Script { threads, exit, api_spawn: v["api"] == "spawn_and_write_streams", fail_out: v["stdout_writer_fails_after"].as_u64().map(|x| x as usize), fail_err: v["stderr_writer_fails_after"].as_u64().map(|x| x as usize) }
+}
+
+/// a writer that accepts `limit` bytes and then fails (a closed socket, a full disk)
+struct FailingWriter {
+    limit: Option<usize>,
+    data: Vec<u8>,
+}
+impl Write for FailingWriter {
+    fn write(&mut self, buf: &[u8]) -> std::io::Result<usize> {
+        match self.limit {
+            Some(l) if self.data.len() + buf.len() > l => {
+                let n = l.saturating_sub(self.data.len());
+                if n == 0 {
+                    return Err(std::io::Error::other("scripted writer failure"));
+                }
+                self.data.extend_from_slice(&buf[..n]);
+                Ok(n)
+            }
+            _ => {
+                self.data.extend_from_slice(buf);
+                Ok(buf.len())
+            }
+        }
+    }
+    fn flush(&mut self) -> std::io::Result<()> {
+        Ok(())
+    }
 }
 
 enum Outcome {
@@ -488,6 +519,20 @@ fn run_script(scratch: &Scratch, s: &Script, watchdog: Duration) -> Outcome {
         let mut cmd = Command::new(&vchild);
         cmd.arg(script_text(&s2)).env("VCHILD_PIDFILE", &pf).stdin(std::process::Stdio::null());
         let r: Check = (|| {
+            if s2.fail_out.is_some() || s2.fail_err.is_some() {
+                // a failing writer: the call has to come back (with the writer's error or not) instead of leaving the
+                // child blocked on a pipe nobody reads; what was delivered before the failure is not judged
+                let mut fo = FailingWriter { limit: s2.fail_out, data: vec![] };
+                let mut fe = FailingWriter { limit: s2.fail_err, data: vec![] };
+                if s2.api_spawn {
+                    if let Ok(mut child) = cmd.spawn_and_write_streams(&mut fo, &mut fe) {
+                        let _ = child.wait();
+                    }
+                } else {
+                    let _ = cmd.output_and_write_streams(&mut fo, &mut fe);
+                }
+                return Ok(());
+            }
             let mut wo: Vec<u8> = vec![];
             let mut we: Vec<u8> = vec![];
             if s2.api_spawn {
@@ -567,12 +612,12 @@ fn run_children(ctx: &Ctx, n: usize) {
     let watchdog = Duration::from_secs(30);
     // fixed, hand-picked shapes first (stderr-heavy before stdout, and vice versa)
     let mut all = vec![
-        Script { threads: vec![vec![Step::Err(200_000), Step::Out(10)]], exit: 0, api_spawn: false },
-        Script { threads: vec![vec![Step::Out(200_000), Step::Err(10)]], exit: 3, api_spawn: true },
-        Script { threads: vec![vec![Step::Out(100_000)], vec![Step::Err(100_000)]], exit: 0, api_spawn: false },
-        Script { threads: vec![vec![Step::CloseOut, Step::Err(150_000)]], exit: 0, api_spawn: false },
-        Script { threads: vec![vec![Step::CloseErr, Step::Out(150_000)]], exit: 0, api_spawn: true },
-        Script { threads: vec![vec![]], exit: 7, api_spawn: false },
+        Script { threads: vec![vec![Step::Err(200_000), Step::Out(10)]], exit: 0, api_spawn: false, fail_out: None, fail_err: None },
+        Script { threads: vec![vec![Step::Out(200_000), Step::Err(10)]], exit: 3, api_spawn: true, fail_out: None, fail_err: None },
+        Script { threads: vec![vec![Step::Out(100_000)], vec![Step::Err(100_000)]], exit: 0, api_spawn: false, fail_out: None, fail_err: None },
+        Script { threads: vec![vec![Step::CloseOut, Step::Err(150_000)]], exit: 0, api_spawn: false, fail_out: None, fail_err: None },
+        Script { threads: vec![vec![Step::CloseErr, Step::Out(150_000)]], exit: 0, api_spawn: true, fail_out: None, fail_err: None },
+        Script { threads: vec![vec![]], exit: 7, api_spawn: false, fail_out: None, fail_err: None },
     ];
     all.extend(scripts);
     for s in &all {
@@ -584,6 +629,9 @@ fn run_children(ctx: &Ctx, n: usize) {
             ctx.class("child:spawn_and_write_streams");
         } else {
             ctx.class("child:output_and_write_streams");
+        }
+        if s.fail_out.is_some() || s.fail_err.is_some() {
+            ctx.class("child:a supplied writer fails mid-stream");
         }
         if script_nontrivial(s) {
             ctx.class("child:>1 pipe buffer on one stream while other open");
@@ -649,7 +697,7 @@ fn run_early_close(ctx: &Ctx, sleeps_ms: &[u64]) {
 }
 
 pub fn run(ctx: &Ctx) {
-    ctx.set_rule("(1) child scripts: 0..8 steps of (stream, size in {0,1..200,4096,65536,65537,..262144}, pause), single-threaded interleaved or one thread per stream, early close of a stream, exit code; run through output_and_write_streams and spawn_and_write_streams, compared bytewise with the script's per-stream content; children that close both streams and keep running for 3-6 s must not delay the return of spawn_and_write_streams. (2) MappedWrite: EXHAUSTIVE all byte strings of length <= L over {marker,a,b} (L=8 quick, 10 thorough) x all 2^(n-1) chunkings into write calls (+ zero-length writes on every fifth chunking) x finalisation by drop and by unwrap, mapping seg -> '[' seg ']'; sampled inputs <=200 bytes with add_prefix / map_utf8_lossy / repeat under random chunkings. (3) TeeWrite under the same chunkings with short-writing targets (1..3 bytes per write). Non-trivial: (1) a stream carries more than one 64 KiB pipe buffer while the other stream is still open; (2) input contains a marker and a write boundary falls inside a segment; distinct = hash of script / (input, chunking).");
+    ctx.set_rule("(1) child scripts: 0..8 steps of (stream, size in {0,1..200,4096,65536,65537,..262144}, pause), single-threaded interleaved or one thread per stream, early close of a stream, exit code, in 1 of 5 scripts a supplied writer that fails after 0/10/5000/70000 bytes (the call must still come back); run through output_and_write_streams and spawn_and_write_streams, compared bytewise with the script's per-stream content; children that close both streams and keep running for 3-6 s must not delay the return of spawn_and_write_streams. (2) MappedWrite: EXHAUSTIVE all byte strings of length <= L over {marker,a,b} (L=8 quick, 10 thorough) x all 2^(n-1) chunkings into write calls (+ zero-length writes on every fifth chunking) x finalisation by drop and by unwrap, mapping seg -> '[' seg ']'; sampled inputs <=200 bytes with add_prefix / map_utf8_lossy / repeat under random chunkings. (3) TeeWrite under the same chunkings with short-writing targets (1..3 bytes per write). Non-trivial: (1) a stream carries more than one 64 KiB pipe buffer while the other stream is still open; (2) input contains a marker and a write boundary falls inside a segment; distinct = hash of script / (input, chunking).");
     ctx.assume("deadlock is decided by a 30 s watchdog plus /proc/<child>/syscall showing the child blocked in write(2) on fd 1 or 2; any other watchdog expiry is reported as inconclusive (exit 2)");
     ctx.assume("the OS scheduler is not controlled; the blocking structure is controlled through the child's script");
     ctx.set_exhaustive(true);
